@@ -65,10 +65,11 @@ Record iobs := mkIObs {
   io_ended : Z;            (* terms ended (claim cleared while held) *)
   io_hb_ta : Z;            (* start of the latest refresh attempt of the running term (the claim itself at first) *)
   io_hb_te : Z;            (* its end (answer looked at, or the loop's time-out); -1 while it is in flight *)
-  io_hb_op : Z             (* the call of that attempt *)
+  io_hb_op : Z;            (* the call of that attempt *)
+  io_cancelled : bool      (* the context passed to Start has been cancelled and no Start was accepted since *)
 }.
-#[export] Instance eta_iobs : Settable _ := settable! mkIObs <io_flag; io_tok; io_acq_rev; io_state; io_started; io_stopping; io_stopped; io_terms; io_views; io_false_cause; io_promotes; io_demotes; io_ended; io_hb_ta; io_hb_te; io_hb_op>.
-Definition iobs0 := mkIObs false 0 0 stInit false false false 0 [] 0 0 0 0 0 0 0.
+#[export] Instance eta_iobs : Settable _ := settable! mkIObs <io_flag; io_tok; io_acq_rev; io_state; io_started; io_stopping; io_stopped; io_terms; io_views; io_false_cause; io_promotes; io_demotes; io_ended; io_hb_ta; io_hb_te; io_hb_op; io_cancelled>.
+Definition iobs0 := mkIObs false 0 0 stInit false false false 0 [] 0 0 0 0 0 0 0 false.
 
 Record base := mkBase {
   b_now : Z;
@@ -80,11 +81,12 @@ Record base := mkBase {
   b_pend : amap pend;                 (* op -> call in flight (kept after return for reference) *)
   b_rets : amap lastret;              (* goroutine -> its last returned store call *)
   b_inst : amap iobs;
-  b_ended : bool                      (* the harness has begun its wind-down *)
+  b_ended : bool;                     (* the harness has begun its wind-down *)
+  b_done : list Z                     (* store calls that have returned to their caller *)
 }.
-#[export] Instance eta_base : Settable _ := settable! mkBase <b_now; b_cfgs; b_vals; b_seq; b_last; b_hist; b_pend; b_rets; b_inst; b_ended>.
+#[export] Instance eta_base : Settable _ := settable! mkBase <b_now; b_cfgs; b_vals; b_seq; b_last; b_hist; b_pend; b_rets; b_inst; b_ended; b_done>.
 #[export] Instance eta_pend : Settable _ := settable! mkPend <p_i; p_kind; p_inner; p_root; p_gid; p_key; p_val; p_exp; p_t; p_applied>.
-Definition base0 := mkBase 0 [] [] 0 [] [] [] [] [] false.
+Definition base0 := mkBase 0 [] [] 0 [] [] [] [] [] false [].
 
 Definition zb (z : Z) : bool := negb (z =? 0).
 
@@ -154,7 +156,7 @@ Definition bapply (b0 : base) (te : Z * ev) : base :=
       | Some p =>
           let v := if p_kind p =? kGet then val else p_val p in
           let lr := mkLR i (p_kind p) (p_inner p) rk rev v (p_key p) t in
-          let b1 := b <| b_rets ::= fun m => aset m (p_gid p) lr |> in
+          let b1 := b <| b_rets ::= fun m => aset m (p_gid p) lr |> <| b_done ::= cons op |> in
           let b1 := if (io_hb_op (inst_of b1 i) =? op) && (io_hb_te (inst_of b1 i) <? 0)
                     then upd_inst b1 i (fun x => x <| io_hb_te := t |>) else b1 in
           (* a successful refresh gives the instance a new (token, revision) view *)
@@ -181,7 +183,7 @@ Definition bapply (b0 : base) (te : Z * ev) : base :=
   | EDemote i gid => upd_inst b i (fun x => x <| io_demotes ::= Z.succ |>)
   | ETrans i f to => upd_inst b i (fun x => x <| io_state := to |>)
   | ELog i code gid extra =>
-      if code =? 1 then upd_inst b i (fun x => x <| io_state := stCandidate |> <| io_started := true |> <| io_stopped := false |> <| io_stopping := false |>)
+      if code =? 1 then upd_inst b i (fun x => x <| io_state := stCandidate |> <| io_started := true |> <| io_stopped := false |> <| io_stopping := false |> <| io_cancelled := false |>)
       else b
   | EApi i call a1 a2 a3 a4 gid =>
       (* cancelling the context passed to Start begins a shutdown as well (call 8) *)
@@ -192,6 +194,7 @@ Definition bapply (b0 : base) (te : Z * ev) : base :=
         if res =? 0 then upd_inst b i (fun x => x <| io_started := false |> <| io_stopping := false |> <| io_stopped := true |>)
         else if res =? 1 then upd_inst b i (fun x => x <| io_stopping := false |>)
         else upd_inst b i (fun x => x <| io_started := false |> <| io_stopping := false |>)
+      else if call =? 8 then upd_inst b i (fun x => x <| io_cancelled := true |>)
       else b
   | EExtPut key val rev => publish b key rev 0 val false hExtPut 0 0
   | EExtDel key rev => publish b key rev 0 0 true hExtDel 0 0
